@@ -14,6 +14,7 @@ import (
 	"os"
 	"strconv"
 	"strings"
+	"time"
 
 	"golang.org/x/perf/internal/verifh/hx"
 )
@@ -42,16 +43,42 @@ func fbList(xs []float64) string {
 	return strings.Join(p, ",")
 }
 
-// guard runs f and turns a panic of the real code into a crash line for the current case.
+// guard runs f under a watchdog and turns a panic OR a hang of the real code into a crash line
+// for the current case ("never panics / never hangs"). f runs in its own goroutine; after
+// guardLimit the case is abandoned (the goroutine cannot be killed; after three hangs of the same
+// kind further cases of that kind are skipped and reported as crashes as well).
+const guardLimit = 10 * time.Second
+
+var hung = map[string]int{}
+
 func guard(what string, f func()) (ok bool) {
-	defer func() {
-		if e := recover(); e != nil {
-			hx.Printf("crash %d %s: %s\n", id, what, strings.ReplaceAll(fmt.Sprint(e), "\n", " "))
-			ok = false
-		}
+	if hung[what] >= 3 {
+		hx.Printf("crash %d %s: skipped after repeated hangs\n", id, what)
+		return false
+	}
+	done := make(chan string, 1)
+	go func() {
+		defer func() {
+			if e := recover(); e != nil {
+				done <- strings.ReplaceAll(fmt.Sprint(e), "\n", " ")
+				return
+			}
+			done <- ""
+		}()
+		f()
 	}()
-	f()
-	return true
+	select {
+	case msg := <-done:
+		if msg != "" {
+			hx.Printf("crash %d %s: %s\n", id, what, msg)
+			return false
+		}
+		return true
+	case <-time.After(guardLimit):
+		hung[what]++
+		hx.Printf("crash %d %s: no answer within %v (hang)\n", id, what, guardLimit)
+		return false
+	}
 }
 
 // per divides a budget between the shards.
@@ -75,6 +102,9 @@ func main() {
 	if want("descr") {
 		descrCorpus()
 		descrCases(r, per(hx.N(700, 12000)))
+	}
+	if want("wdescr") {
+		wdescrCases(r, per(hx.N(400, 6000)))
 	}
 	if want("ttest") {
 		ttestCases(r, per(hx.N(700, 12000)))
